@@ -46,4 +46,28 @@ def fJson (x : Float) : Json := toJson (floatToBits x)
 def fsJson (xs : Array Float) : Json := toJson (xs.map floatToBits)
 def fssJson (xs : Array (Array Float)) : Json := toJson (xs.map fun r => r.map floatToBits)
 
+def dispatch (ops : List (String × Handler)) (j : Json) : Except String Json := do
+  let op ← j.getObjValAs? String "op"
+  if op == "ping" then return Json.mkObj [("pong", toJson true)]
+  match ops.lookup op with
+  | some h => h j
+  | none => throw s!"bad-op: unknown op {op}"
+
+partial def loop (ops : List (String × Handler)) (h : IO.FS.Stream) (out : IO.FS.Stream) : IO Unit := do
+  let line ← h.getLine
+  if line.isEmpty then return ()
+  let res := match Json.parse line with
+    | .ok j => dispatch ops j
+    | .error e => .error s!"bad-json: {e}"
+  match res with
+  | .ok r => out.putStrLn (Json.compress r)
+  | .error e => out.putStrLn (Json.compress (Json.mkObj [("error", toJson e)]))
+  out.flush
+  loop ops h out
+
+/-- Line-protocol main loop: one JSON object per input line (`{"op": name, ...}`), one JSON object per
+output line (`{"error": msg}` on failure). -/
+def runDriver (ops : List (String × Handler)) : IO Unit := do
+  loop ops (← IO.getStdin) (← IO.getStdout)
+
 end Xrfmv.Drv
